@@ -53,8 +53,9 @@ def write_module(root, k, edges, extra_methods=2, cross_params=False):
                 h = [f"#ifndef {g}", f"#define {g}", '#include "vfpub.h"', f'#include "lib{j}_root.h"',
                      f"class D{i}_{j} : public R{j} {{", "PUBLISHED:", f"  D{i}_{j}();", f"  int own_id() const;",
                      f"  virtual int vid() const;"] + xp + ["};"] + \
-                    (["BEGIN_PUBLISH", f"int free{i}_{j}(const R{j} *x, D{i}_{j} &d);", "END_PUBLISH",
-                      f"#define MAC{i}_{j} {10 * i + j}"] if cross_params else []) + ["#endif"]
+                    (["BEGIN_PUBLISH", f"int free{i}_{j}(const R{j} *x, D{i}_{j} &d);",
+                      f"#define MAC{i}_{j} {10 * i + j}", f"#define MACS{i}_{j} \"s{i}{j}\"", f"#define MACF{i}_{j} {i}.5",
+                      "END_PUBLISH"] if cross_params else []) + ["#endif"]
                 cx += [f'#include "{hn}"', f"D{i}_{j}::D{i}_{j}() {{}}",
                        f"int D{i}_{j}::own_id() const {{ return {1000 + 10 * i + j}; }}",
                        f"int D{i}_{j}::vid() const {{ return {1000 + 10 * i + j}; }}"]
